@@ -46,19 +46,23 @@ impl State {
 
         self.token_this_line = true;
         let mut res = self.newlines.pop().map_or(vec![], |nl| vec![nl]);
+        // cur_indent only moves by the whole levels that were emitted, so that the
+        // indents emitted so far always equal what flush_indents will close, also
+        // for indentation that is not a multiple of 4.
         if self.line_indent >= self.cur_indent {
-            let amount = ((self.line_indent - self.cur_indent) / 4) as usize;
-            res.append(&mut vec![Lex::new(self.pos, Token::Indent); amount]);
+            let amount = (self.line_indent - self.cur_indent) / 4;
+            res.append(&mut vec![Lex::new(self.pos, Token::Indent); amount as usize]);
+            self.cur_indent += 4 * amount;
         } else {
-            let amount = ((self.cur_indent - self.line_indent) / 4) as usize;
-            res.append(&mut vec![Lex::new(self.pos, Token::Dedent); amount]);
+            let amount = (self.cur_indent - self.line_indent) / 4;
+            res.append(&mut vec![Lex::new(self.pos, Token::Dedent); amount as usize]);
             res.push(Lex::new(self.pos, Token::NL));
+            self.cur_indent -= 4 * amount;
         }
 
         res.append(&mut self.newlines);
         let lex = Lex::new(self.pos, token);
 
-        self.cur_indent = self.line_indent;
         // The caret continues where the token ends, also for multiline strings.
         self.pos = lex.pos.end;
         res.push(lex);
